@@ -1,4 +1,7 @@
 import SJ.Proofs.Pointer
+import SJ.Proofs.ValueIndex
+import SJ.Proofs.PartialEq
+import SJ.Proofs.JsonMacro
 /-!
 # C18 — Value lookups follow RFC 6901 and agree with each other
 
@@ -131,5 +134,219 @@ example : pointer doc [0x2f, 0x61, 0x7e, 0x31, 0x62, 0x2f, 0x2b, 0x31] = none :=
 example : pointer doc [0x2f, 0x61, 0x7e, 0x31, 0x62, 0x2f, 0x2d] = none := rfl   -- /a~1b/-
 example : pointer doc [0x61, 0x7e, 0x31, 0x62] = none := rfl   -- a~1b
 example : unescapeTok [0x7e, 0x30, 0x31] = [0x7e, 0x31] := rfl   -- ~01 ↦ ~1
+
+/-! ## `get` / `Index` / `IndexMut` / `take` -/
+
+section index
+open SJ.Model.ValueIndex SJ.Proofs.ValueIndex
+
+/-- **C18 (get, Index).** For every probe (a `usize`, a `str`, a `String`, a reference to any of
+    them) and every value: `get` is direct container access (first-match member lookup in an object,
+    `nth` in an array, nothing otherwise), `&value[probe]` is that or `Null`, and a write through
+    `get_mut` replaces exactly the member / element addressed. -/
+theorem c18_get_index (p : Probe) (v : JV) :
+    get p v = Spec.Index.select (sel p) v ∧
+    index p v = Spec.Index.orNull (Spec.Index.select (sel p) v) ∧
+    ∀ x, getMutSet p x v = (Spec.Index.select (sel p) v).map fun _ => Spec.Index.write x (sel p) v := by
+  refine ⟨indexInto_eq p v, ?_, fun x => indexIntoMutSet_eq p x v⟩
+  unfold index
+  rw [indexInto_eq]
+  cases Spec.Index.select (sel p) v <;> rfl
+
+/-- the outcome the reference prescribes for `&mut value[probe]` -/
+def refIndexMut (po : Bool) (s : Spec.Index.Sel) (v : JV) : Res (JV × Spec.Index.Sel) :=
+  match Spec.Index.indexMut po s v with
+  | some doc => .ok (doc, s)
+  | none => .panic
+
+def resSel : Res (JV × Loc) → Res (JV × Spec.Index.Sel)
+  | .ok (d, l) => .ok (d, locSel l)
+  | .panic => .panic
+
+theorem strIndexOrInsert_eq (po : Bool) (k : Bytes) (v : JV) :
+    resSel (strIndexOrInsert po k v) = refIndexMut po (.key k) v := by
+  have hn : Gen.nullBecomesObject = true := rfl
+  have ho : valueOfCode Gen.orInsertCode = .null := rfl
+  cases v <;>
+    simp [strIndexOrInsert, refIndexMut, Spec.Index.indexMut, Spec.Index.indexMutKey, resSel, locSel, hn, ho,
+      entryOrInsert_eq]
+
+theorem usizeIndexOrInsert_eq (i : Nat) (v : JV) :
+    resSel (usizeIndexOrInsert i v) = refIndexMut false (.pos i) v := by
+  cases v <;> simp [usizeIndexOrInsert, refIndexMut, Spec.Index.indexMut, Spec.Index.indexMutIdx, resSel]
+  rename_i l
+  cases l[i]? <;> simp [locSel]
+
+theorem refIndexMut_pos (po : Bool) (i : Nat) (v : JV) : refIndexMut po (.pos i) v = refIndexMut false (.pos i) v := rfl
+
+/-- **C18 (IndexMut).** `&mut value[probe]` is the reference "insert-if-missing, then address":
+    * a string probe turns `Null` into an object, adds a `null` member when the key is missing (in
+      key order by default, at the end under `preserve_order`), never touches another member, and
+      addresses member `key` of the result; it panics exactly on a bool, number, string or array;
+    * a position probe creates nothing and addresses element `i`; it panics exactly when the value is
+      not an array or `i` is past the end. -/
+theorem c18_index_mut (po : Bool) (p : Probe) (v : JV) :
+    resSel (indexMut po p v) = refIndexMut po (sel p) v := by
+  unfold indexMut
+  induction p with
+  | usize i => exact usizeIndexOrInsert_eq i v
+  | str k => exact strIndexOrInsert_eq po k v
+  | string k => exact strIndexOrInsert_eq po k v
+  | ref p ih => simpa [indexOrInsert, sel] using ih
+
+/-- … where the reference itself is characterised by lookups: the panics are exactly the documented
+    ones, and after `&mut value[key]` member `key` holds what it held before (or `null`) while every
+    other lookup is unchanged. -/
+theorem c18_index_mut_reference (po : Bool) (v : JV) :
+    (∀ k, Spec.Index.indexMut po (.key k) v = none ↔ (v ≠ .null ∧ ∀ m, v ≠ .obj m)) ∧
+    (∀ i, Spec.Index.indexMut po (.pos i) v = none ↔ ∀ l, v = .arr l → l.length ≤ i) ∧
+    (∀ i doc, Spec.Index.indexMut po (.pos i) v = some doc → doc = v) ∧
+    (∀ k doc, Spec.Index.indexMut po (.key k) v = some doc →
+      ∃ m', doc = .obj m' ∧ ∀ k', Spec.Index.lookup k' m' =
+        if k' = k then some (Spec.Index.orNull (Spec.Index.member k v)) else Spec.Index.member k' v) := by
+  refine ⟨fun k => ?_, fun i => ?_, fun i doc h => ?_, fun k doc h => ?_⟩
+  · cases v <;> simp [Spec.Index.indexMut, Spec.Index.indexMutKey]
+  · cases v <;> simp [Spec.Index.indexMut, Spec.Index.indexMutIdx]
+  · cases v <;> simp [Spec.Index.indexMut, Spec.Index.indexMutIdx] at h
+    obtain ⟨_, _, rfl⟩ := h; rfl
+  · cases v <;> simp [Spec.Index.indexMut, Spec.Index.indexMutKey] at h
+    · subst h
+      exact ⟨_, rfl, fun k' => by
+        rw [lookup_insertIfMissing]; simp [Spec.Index.member, Spec.Index.lookup]⟩
+    · subst h
+      exact ⟨_, rfl, fun k' => by rw [lookup_insertIfMissing]; simp [Spec.Index.member]⟩
+
+/-- **C18 (take).** `take` returns the old value and leaves `Null`; applied through a pointer it
+    returns the node RFC 6901 addresses and leaves the document with exactly that node nulled. -/
+theorem c18_take (v : JV) (p : Bytes) :
+    take v = (v, .null) ∧
+    takeAt v p = match Spec.Pointer.eval v p with
+      | none => none
+      | some node => (Spec.Pointer.set v p .null).map fun doc' => (node, doc') := by
+  have ht : ∀ x, take x = (x, .null) := fun _ => rfl
+  refine ⟨ht v, ?_⟩
+  unfold takeAt
+  rw [c18_pointer, ]
+  cases Spec.Pointer.eval v p with
+  | none => rfl
+  | some node => simp only [ht, c18_pointer_mut]
+
+/-- non-vacuity: probes on `{"a/b": [null, true], "m~n": 8}` -/
+example : index (.str [0x6d, 0x7e, 0x6e]) doc = .num (.pos 8) := rfl
+example : index (.ref (.string [0x7a])) doc = .null := rfl
+example : index (.usize 0) doc = .null := rfl
+example : get (.usize 1) (.arr [.null, .bool true]) = some (.bool true) := rfl
+example : indexMut false (.str [0x62]) (.obj [([0x61], .null), ([0x63], .null)])
+    = .ok (.obj [([0x61], .null), ([0x62], .null), ([0x63], .null)], .key [0x62]) := rfl
+example : indexMut true (.str [0x62]) (.obj [([0x61], .null), ([0x63], .null)])
+    = .ok (.obj [([0x61], .null), ([0x63], .null), ([0x62], .null)], .key [0x62]) := rfl
+example : indexMut false (.str [0x62]) .null = .ok (.obj [([0x62], .null)], .key [0x62]) := rfl
+example : indexMut false (.str [0x62]) (.bool true) = .panic := rfl
+example : indexMut false (.usize 2) (.arr [.null, .null]) = .panic := rfl
+example : takeAt doc [0x2f, 0x6d, 0x7e, 0x30, 0x6e]
+    = some (.num (.pos 8), .obj [([0x61, 0x2f, 0x62], .arr [.null, .bool true]), ([0x6d, 0x7e, 0x6e], .null)]) := rfl
+
+end index
+
+/-! ## `Value == primitive` -/
+
+section partialEq
+open SJ.Model.PartialEq SJ.Spec.PrimEq SJ.Proofs.PartialEq
+
+/-- **C18 (PartialEq with integers, bool, strings).** For every integer type of the *extracted*
+    `partialeq_numeric!` table, every comparand in that type's range and every (well-formed) value:
+    `value == comparand` — i.e. the row's function applied to `comparand as _` — is true exactly when
+    the value is an integer `Number` holding that very integer. (Moving a type to a row whose `as`
+    cast does not preserve its values, e.g. `usize` through `i64`, breaks this proof.)
+    Likewise `bool` and `str`/`String` comparands: same constructor, same content. -/
+theorem c18_partial_eq (v : JV) (hv : wfValue v = true) :
+    (∀ ty lo hi, intRange ty = some (lo, hi) → ∀ x : Int, lo ≤ x → x ≤ hi →
+      eqPrim ty (.int x) v = holdsInt x v) ∧
+    (∀ b, eqPrim .bool (.bool b) v = holdsBool b v) ∧
+    (∀ s, eqStr s v = holdsStr s v) := by
+  refine ⟨fun ty lo hi hr x hlo hhi => ?_, fun b => ?_, fun s => ?_⟩
+  · cases ty <;> simp only [intRange, Option.some.injEq, Prod.mk.injEq, reduceCtorEq] at hr <;>
+      obtain ⟨rfl, rfl⟩ := hr <;> simp only [eqPrim, Gen.eqFnOf]
+    all_goals first
+      | exact eqFn_i64 x (by omega) (by omega) v
+      | exact eqFn_u64 x (by omega) (by omega) v hv
+  · cases v <;> simp [eqPrim, Gen.eqFnOf, eqFn, Gen.eqFnParam, Gen.eqFnAccessor, castTo, accessor, castedEq, holdsBool]
+  · cases v <;> rfl
+
+/-- **C18 (PartialEq with floats).** `value == x` for `x : f64` (`f32`) is the IEEE-754 equality of `x`
+    with the value's number converted to binary64 (binary32) by one correctly rounded conversion; a
+    non-number never equals a float. -/
+theorem c18_partial_eq_float (v : JV) :
+    (∀ b, eqPrim .f64 (.f64 b) v = holdsF64 b v) ∧ (∀ b, eqPrim .f32 (.f32 b) v = holdsF32 b v) := by
+  constructor <;> intro b <;> cases v <;>
+    simp only [eqPrim, Gen.eqFnOf, eqFn, Gen.eqFnParam, Gen.eqFnAccessor, castTo, accessor, holdsF64, holdsF32,
+      asF64, asF32] <;>
+    rename_i n <;> first
+      | (cases numAsF64 n <;> rfl)
+      | (cases numAsF32 n <;> rfl)
+
+/-- a NaN comparand equals no value; the two zeros are equal -/
+theorem c18_partial_eq_nan (b : UInt64) (hb : Spec.Ieee.F64.isNaN b = true) (v : JV) : eqPrim .f64 (.f64 b) v = false := by
+  rw [(c18_partial_eq_float v).1]
+  cases v <;> simp only [holdsF64]
+  rename_i n
+  cases numAsF64 n <;> simp [ieeeEq64, hb]
+
+/-- the cast matters: through `i64`, `usize::MAX` would equal `-1` -/
+example : wrapI64 18446744073709551615 = -1 := by decide +kernel
+example : eqPrim .usize (.int 18446744073709551615) (.num (.pos 18446744073709551615)) = true := by decide +kernel
+example : eqPrim .usize (.int 18446744073709551615) (.num (.neg (-1))) = false := by decide +kernel
+example : eqPrim .i8 (.int (-128)) (.num (.neg (-128))) = true := by decide +kernel
+example : eqPrim .u8 (.int 1) (.num (.float 0x3ff0000000000000)) = false := by decide +kernel   -- 1u8 ≠ 1.0
+example : eqPrim .f64 (.f64 0x8000000000000000) (.num (.float 0)) = true := by decide +kernel   -- -0.0 == 0.0
+example : eqPrim .f64 (.f64 0x3ff0000000000000) (.num (.pos 1)) = true := by decide +kernel     -- 1.0 == 1
+example : eqPrim .f64 (.f64 0x7ff8000000000000) (.num (.float 0x7ff8000000000000)) = false := by decide +kernel
+example : eqPrim .f64 (.f64 0x4340000000000000) (.num (.pos 9007199254740993)) = true := by decide +kernel  -- 2^53 == 2^53+1 (as f64)
+example : eqPrim .f32 (.f32 0x3fc00000) (.num (.float 0x3ff8000000000000)) = true := by decide +kernel      -- 1.5f32 == 1.5
+example : eqStr [0x61] (.str [0x61]) = true := rfl
+
+end partialEq
+
+/-! ## `json!` -/
+
+section jsonMacro
+open SJ.Spec.JsonMacro SJ.Model.JsonMacro
+
+/-- **C18 (json!).** For every token tree that is a JSON-shaped literal — any nesting, elements and
+    members separated by commas with an optional trailing comma, keys that are string-valued
+    expression units (bare or parenthesised), values that are `null`/`true`/`false`, nested literals
+    or arbitrary interpolated expressions — applying the `json_internal!` rules in source order
+    succeeds and builds exactly the structurally evaluated value: arrays in order, an object holding
+    one entry per distinct key with the **last** duplicate's value, keys ascending (default) or in
+    first-occurrence order (`preserve_order`) — `Spec.Canon.objectOf`, i.e. what parsing the
+    equivalent JSON text yields by C02. Depends on the extracted insert statement being
+    `Map::insert` (`Gen.jsonInsertOverwrites`). -/
+theorem c18_json_macro (po : Bool) (t : TT) (l : Lit) (h : shape t = some l) :
+    jsonMacro po t = some (eval po l) :=
+  SJ.Proofs.JsonMacro.expand_shape po t l h
+
+/-- The tie to the source: the rule heads and right-hand sides of `json_internal!` regenerated from
+    `src/macros.rs` on this run are, in order, the ones `Model.JsonMacro` transcribes. -/
+theorem c18_json_rules_tied : RulesTied := ⟨rfl, rfl⟩
+
+/-- `{"a": 1, "b": [null, x,], "a": true,}` with `x` interpolated as `"s"`: last duplicate wins,
+    trailing commas are ignored -/
+def sample : TT :=
+  .obj [.lit (.str [0x61]), .colon, .lit (.num (.pos 1)), .comma,
+        .paren (.str [0x62]), .colon, .arr [.null, .comma, .expr (.str [0x73]), .comma], .comma,
+        .expr (.str [0x61]), .colon, .true_, .comma]
+example : shape sample = some (.obj [([0x61], .leaf (.num (.pos 1))), ([0x62], .arr [.null, .leaf (.str [0x73])]),
+    ([0x61], .bool true)]) := rfl
+example : jsonMacro false sample = some (.obj [([0x61], .bool true), ([0x62], .arr [.null, .str [0x73]])]) := rfl
+example : jsonMacro true (.obj [.lit (.str [0x62]), .colon, .null, .comma, .lit (.str [0x61]), .colon, .null, .comma,
+    .lit (.str [0x62]), .colon, .true_])
+    = some (.obj [([0x62], .bool true), ([0x61], .null)]) := rfl
+/-- outside the JSON shape the rules still speak: a leading comma in an array is accepted
+    (`json!([,1]) == [1]`, rule A10 on the empty accumulator), a doubled comma is not -/
+example : jsonMacro false (.arr [.comma, .lit (.num (.pos 1))]) = some (.arr [.num (.pos 1)]) := rfl
+example : jsonMacro false (.arr [.null, .comma, .comma, .lit (.num (.pos 1))]) = none := rfl
+example : jsonMacro false (.obj [.lit (.num (.pos 1)), .colon, .null]) = none := rfl   -- a number is no key
+
+end jsonMacro
 
 end SJ.Props.C18
